@@ -246,7 +246,7 @@ func verifC09Options(thorough bool) []verifC09Opt {
 			verifC09Opt{"max-repack-0", PruneOptions{MaxUnused: "0", MaxRepackSize: "0"}},
 			verifC09Opt{"max-repack-6k", PruneOptions{MaxUnused: "0", MaxRepackSize: "6K"}},
 			verifC09Opt{"repack-uncompressed", PruneOptions{MaxUnused: "unlimited", RepackUncompressed: true}},
-			verifC09Opt{"repack-smaller-1m", PruneOptions{MaxUnused: "unlimited", SmallPackSize: "1M"}},
+			verifC09Opt{"repack-smaller-4k", PruneOptions{MaxUnused: "unlimited", SmallPackSize: "4K"}},
 		)
 	}
 	return l
